@@ -17,6 +17,8 @@ PLAN = dict(
           "positions 0 and 1. Plus the real pkgsrc glob patterns x real names. Non-trivial = every glob case "
           "and every plain case (names differ from a match in <= 1 character by construction); distinct by "
           "pattern fingerprint."),
+    exhaustive={"quick": "every pattern of length <= 4 over {a,b,*,?,[,],!,-} (in-subset ones compared, unclosed '[' must be rejected) x all 40 names of length <= 3 over {a,b,-}",
+                "thorough": "every pattern of length <= 5 over {a,b,*,?,[,],!,-} x all 40 names of length <= 3 over {a,b,-}"},
     technique="runtime monitor: differential test against a reference shell-glob matcher and shortcut-free partners (glob crate, equality, Dewey, expansion union)",
     level_text=("Exploration: ~10^5-10^6 patterns x ~30 targeted names each; dispatch classes, the unclosed-bracket "
                 "class and the position-0/1 negative classes are all required to be reached."),
